@@ -736,6 +736,12 @@ class SVG:
             group.extend(list(self.svg_root))
             self.svg_root.append(group)
 
+        # Inline gradient templates before any gradient is rewritten: a gradient
+        # must inherit its template's original attributes, not values in which the
+        # template's own translation or units have already been folded
+        for gradient_el in self._select_gradients():
+            self._apply_gradient_template(gradient_el)
+
         # Reversed: we want leaves first
         to_process = reversed(tuple(c for c in self.breadth_first()))
 
